@@ -91,6 +91,7 @@ func runConvert(c *Ctx) {
 
 	// ---- convertMulti (with its private helpers: the identity-function builder and/or a result helper)
 	var callCall, funcOf, makeFunc, newFunc *ssa.Call
+	var callSites []ssa.CallInstruction
 	for _, ci := range p.RegionCalls(cm) {
 		cl, _ := ci.(*ssa.Call)
 		if cl == nil {
@@ -105,10 +106,12 @@ func runConvert(c *Ctx) {
 		switch ci.Common().StaticCallee() {
 		case call:
 			callCall = cl
+			callSites = append(callSites, ci)
 		case nf:
 			newFunc = cl
 		}
 	}
+	c.oneSite("CONVERT", "convertMulti", "identity call", callSites)
 	for _, g := range p.Region(cm) {
 		c.R.Func(core.FuncName(g))
 	}
